@@ -357,9 +357,10 @@ func ruleDecimalExponent(c *Ctx) {
 								}
 							}
 						case *ssa.Return:
-							stored = true
+							// handed back by a helper (qty, err := parseQuantityText(...)): judged where the caller stores
+							// it - the sink clause below follows the value through the call
 							if blockDominatedByCondOn(u.Block(), ex, "Exponent") {
-								guarded = true
+								stored, guarded = true, true
 							}
 						}
 					}
@@ -380,18 +381,88 @@ func ruleDecimalExponent(c *Ctx) {
 						if !ok || ex.Index != 0 {
 							continue
 						}
+						// the quantity under the names it has in predicates it is handed to (exponentInRange(qty))
+						alias := map[ssa.Value]bool{ex: true}
+						for _, r2 := range *ex.Referrers() {
+							if c2, ok := r2.(*ssa.Call); ok {
+								if cal2 := c2.Call.StaticCallee(); cal2 != nil && inModule(cal2) {
+									for i, a := range c2.Call.Args {
+										if a == ssa.Value(ex) && i < len(cal2.Params) {
+											alias[cal2.Params[i]] = true
+										}
+									}
+								}
+							}
+						}
+						// the exponent itself under the names it has where it is handed on (exponentInRange(qty.Exponent()))
+						expVals := map[ssa.Value]bool{}
+						for _, bb := range f.Blocks {
+							for _, in2 := range bb.Instrs {
+								c2, ok := in2.(*ssa.Call)
+								if !ok {
+									continue
+								}
+								if cal2 := c2.Call.StaticCallee(); cal2 != nil && cal2.Name() == "Exponent" && len(c2.Call.Args) > 0 && alias[c2.Call.Args[0]] {
+									expVals[c2] = true
+								}
+							}
+						}
+						for _, bb := range f.Blocks {
+							for _, in2 := range bb.Instrs {
+								c2, ok := in2.(*ssa.Call)
+								if !ok {
+									continue
+								}
+								if cal2 := c2.Call.StaticCallee(); cal2 != nil && inModule(cal2) {
+									for i, a := range c2.Call.Args {
+										if expVals[stripConv(a)] && i < len(cal2.Params) {
+											expVals[cal2.Params[i]] = true
+											alias[cal2.Params[i]] = true // its function's comparisons are looked at below
+										}
+									}
+								}
+							}
+						}
+						onAlias := func(x ssa.Value) bool {
+							if expVals[stripConv(x)] {
+								return true
+							}
+							for a := range alias {
+								if condCallsOn(x, a, "Exponent", map[ssa.Value]bool{}) || sliceCallsOn(x, a, "Exponent") {
+									return true
+								}
+							}
+							return false
+						}
+						// comparisons to look at: those in the conditions of this function, and every comparison inside a
+						// predicate the quantity is handed to
+						var cmps []*ssa.BinOp
 						for _, bb := range f.Blocks {
 							ifi, ok := lastInstr(bb).(*ssa.If)
 							if !ok {
 								continue
 							}
 							for w := range backSlice(ifi.Cond) {
-								bo, ok := w.(*ssa.BinOp)
-								if !ok {
-									continue
+								if bo, ok := w.(*ssa.BinOp); ok {
+									cmps = append(cmps, bo)
 								}
-								onX := condCallsOn(bo.X, ex, "Exponent", map[ssa.Value]bool{}) || sliceCallsOn(bo.X, ex, "Exponent")
-								onY := condCallsOn(bo.Y, ex, "Exponent", map[ssa.Value]bool{}) || sliceCallsOn(bo.Y, ex, "Exponent")
+							}
+						}
+						for a := range alias {
+							if prm, ok := a.(*ssa.Parameter); ok {
+								for _, bb := range prm.Parent().Blocks {
+									for _, in2 := range bb.Instrs {
+										if bo, ok := in2.(*ssa.BinOp); ok {
+											cmps = append(cmps, bo)
+										}
+									}
+								}
+							}
+						}
+						{
+							for _, bo := range cmps {
+								onX := onAlias(bo.X)
+								onY := onAlias(bo.Y)
 								if !onX && !onY {
 									continue
 								}
@@ -409,7 +480,12 @@ func ruleDecimalExponent(c *Ctx) {
 									}
 								}
 								// a transformed exponent (abs, negation) on the compared side bounds both directions
-								if _, direct := stripConv(map[bool]ssa.Value{true: bo.X, false: bo.Y}[onX]).(*ssa.Call); !direct {
+								side := stripConv(map[bool]ssa.Value{true: bo.X, false: bo.Y}[onX])
+								_, direct := side.(*ssa.Call)
+								if expVals[side] {
+									direct = true
+								}
+								if !direct {
 									upper, lower = true, true
 								}
 								switch op {
